@@ -10,11 +10,14 @@ import (
 	"github.com/attestantio/go-builder-client/api"
 	apiv1 "github.com/attestantio/go-builder-client/api/v1"
 	"github.com/attestantio/go-builder-client/spec"
+	clientapi "github.com/attestantio/go-eth2-client/api"
 	"github.com/attestantio/go-eth2-client/spec/altair"
 	"github.com/attestantio/go-eth2-client/spec/bellatrix"
 	"github.com/attestantio/go-eth2-client/spec/phase0"
 	"github.com/attestantio/vouch/internal/vnd"
+	"github.com/attestantio/vouch/internal/vstub"
 	"github.com/google/uuid"
+	"github.com/rs/zerolog"
 	e2types "github.com/wealdtech/go-eth2-types/v2"
 	e2wtypes "github.com/wealdtech/go-eth2-wallet-types/v2"
 )
@@ -25,10 +28,10 @@ import (
 
 type vSig struct{ b [96]byte }
 
-func (s *vSig) Verify(_ []byte, _ e2types.PublicKey) bool                   { return true }
-func (s *vSig) VerifyAggregate(_ [][]byte, _ []e2types.PublicKey) bool      { return true }
-func (s *vSig) VerifyAggregateCommon(_ []byte, _ []e2types.PublicKey) bool  { return true }
-func (s *vSig) Marshal() []byte                                             { return s.b[:] }
+func (s *vSig) Verify(_ []byte, _ e2types.PublicKey) bool                  { return true }
+func (s *vSig) VerifyAggregate(_ [][]byte, _ []e2types.PublicKey) bool     { return true }
+func (s *vSig) VerifyAggregateCommon(_ []byte, _ []e2types.PublicKey) bool { return true }
+func (s *vSig) Marshal() []byte                                            { return s.b[:] }
 
 type vKey struct{}
 
@@ -219,21 +222,32 @@ var (
 
 const c06SPE = 32
 
+// c06Spec answers the constructor's spec query with the consensus / builder
+// spec values above.
+type c06Spec struct{}
+
+func (c06Spec) Spec(_ context.Context, _ *clientapi.SpecOpts) (*clientapi.Response[map[string]any], error) {
+	return &clientapi.Response[map[string]any]{Data: map[string]any{
+		"SLOTS_PER_EPOCH":                       uint64(c06SPE),
+		"DOMAIN_BEACON_PROPOSER":                dtProposer,
+		"DOMAIN_BEACON_ATTESTER":                dtAttester,
+		"DOMAIN_RANDAO":                         dtRandao,
+		"DOMAIN_SELECTION_PROOF":                dtSelection,
+		"DOMAIN_AGGREGATE_AND_PROOF":            dtAggAndProof,
+		"DOMAIN_SYNC_COMMITTEE":                 dtSyncComm,
+		"DOMAIN_SYNC_COMMITTEE_SELECTION_PROOF": dtSyncSel,
+		"DOMAIN_CONTRIBUTION_AND_PROOF":         dtContribution,
+		"DOMAIN_APPLICATION_BUILDER":            dtBuilder,
+	}, Metadata: map[string]any{}}, nil
+}
+
+// c06Service builds the service through its constructor, which fetches
+// SLOTS_PER_EPOCH and the domain types from the spec provider.
 func c06Service(d *vDomains) *Service {
-	sc, ss, cp, ab := dtSyncComm, dtSyncSel, dtContribution, dtBuilder
-	return &Service{
-		slotsPerEpoch:                         c06SPE,
-		beaconProposerDomainType:              dtProposer,
-		beaconAttesterDomainType:              dtAttester,
-		randaoDomainType:                      dtRandao,
-		selectionProofDomainType:              dtSelection,
-		aggregateAndProofDomainType:           dtAggAndProof,
-		syncCommitteeDomainType:               &sc,
-		syncCommitteeSelectionProofDomainType: &ss,
-		contributionAndProofDomainType:        &cp,
-		applicationBuilderDomainType:          &ab,
-		domainProvider:                        d,
-	}
+	s, err := New(context.Background(), WithLogLevel(zerolog.Disabled), WithMonitor(struct{}{}), WithClientMonitor(vstub.ClientMonitor{}),
+		WithSpecProvider(c06Spec{}), WithDomainProvider(d))
+	vnd.Assert(err == nil && s != nil, "C06.new.accepted")
+	return s
 }
 
 // expectedSig is the reference: what the spec says account `tag` of the given
